@@ -72,8 +72,14 @@ func verifHarness_C06_gate(kind int, n int) {
 		if kind == 2 {
 			sigb = exp
 		} else {
-			sigb = verifNondetBytes(6)
-			verifAssume(verifNot(verifEqBytes(sigb, exp)))
+			// any six bytes other than the spec signature, expressed as a non-zero difference so that a
+			// counterexample replays against the real SHA-256
+			delta := verifNondetBytes(6)
+			verifAssume(verifNot(verifEqBytes(delta, make([]byte, 6))))
+			sigb = make([]byte, 6)
+			for i := range sigb {
+				sigb[i] = exp[i] ^ delta[i]
+			}
 		}
 		wire = verifSpecV2(1, compat, seq, sys, comp, id, payload, ck, true, link, ts, sigb)
 	}
@@ -103,4 +109,19 @@ func verifHarness_C06_gate(kind int, n int) {
 		}
 	}
 	verifReach("C06/b")
+}
+
+// (e) the configured key is a value: NewV2Key copies the first 32 bytes of its argument (zero padded), and what
+// the caller does with the slice afterwards does not change the key a reader or writer was configured with.
+func verifHarness_C06_key(n int) {
+	in := verifNondetBytes(n)
+	want := make([]byte, 32)
+	copy(want, in)
+	key := NewV2Key(in)
+	verifAssert(verifEqBytes(key[:], want), "C06/e/key-is-first-32-bytes-zero-padded")
+	for i := range in {
+		in[i] ^= 0xFF
+	}
+	verifAssert(verifEqBytes(key[:], want), "C06/e/key-independent-of-caller-slice")
+	verifReach("C06/e")
 }
